@@ -623,7 +623,10 @@ class BasicLexer(AbstractBasicLexer):
                 raise LexError("interegular must be installed for strict mode. Use `pip install 'lark[interegular]'`.")
 
         # Init
-        self.newline_types = frozenset(t.name for t in terminals if _regexp_has_newline(t.pattern.to_regexp()))
+        # Whether a regexp can match a newline cannot be decided from its text
+        # (\W, \D, [\0-\xff], \012 ...), so count newlines in every regexp token.
+        self.newline_types = frozenset(t.name for t in terminals
+                                       if t.pattern.type == 're' or '\n' in t.pattern.value)
         self.ignore_types = frozenset(conf.ignore)
 
         terminals.sort(key=lambda x: (-x.priority, -x.pattern.max_width, -len(x.pattern.value), x.name))
